@@ -504,7 +504,7 @@ def specs(tier):
         for I0 in gr.subsets(nodes, 1, 2 if n <= 3 else 1):
             rest = [v for v in nodes if v not in I0]
             for R0 in gr.subsets(rest, 0, 1):
-                for (tmin, tmax) in ((0, "inf"), (1.5, 3.5), (0, 1), (0, 2.5), (-3, -1)):
+                for (tmin, tmax) in ((0, "inf"), (1.5, 3.5), (0, 1), (0, 2.5), (-3, -1), (-2.5, "inf")):
                     if n == 4 and (tmin, tmax) != (0, "inf") and not thorough:
                         continue
                     for full in (False, True):
@@ -551,6 +551,11 @@ def specs(tier):
                             tmax = (3 if n <= 3 else 2) if sis else "inf"
                             out.append(dict(kind="prob", fn=fn, n=n, edges=es, p=p, I0=list(I0), R0=list(R0),
                                             tmin=0, tmax=tmax, full=full))
+                if p == 0.3 and es and n <= 3:
+                    # negative start times (all start times are dyadic: the references compare times exactly)
+                    for (tmn, steps) in ((-3, 3), (-1, 2), (-2.5, 3)):
+                        for full in (True, False):
+                            out.append(dict(kind="prob", fn=fn, n=n, edges=es, p=p, I0=[0], R0=[], tmin=tmn, tmax=(tmn + steps), full=full))
                 if p == 0.3 and es:
                     out.append(dict(kind="prob", fn=fn, n=n, edges=es, p=p, I0=[0], R0=[], tmin=1.5, tmax=3.5, full=False))
                     out.append(dict(kind="prob", fn=fn, n=n, edges=es, p=p, I0=[0], R0=[], tmin=0, tmax=1 if not sis else 2, full=False, style="positional"))
